@@ -754,6 +754,11 @@ namespace hv
             session.view().set("verif.k0", Value{Int{c.opt_int("gctx", 0)}});
             selected.emplace(session);
         }
+        // OPT rebuild=<n>: the whole build + run is done n times under the SAME selected context (the user's state object stays
+        // theirs: every build sees it as it was handed in)
+        const long long rebuilds = c.opt_int("rebuild", 1);
+        for (long long rb = 0; rb < rebuilds; ++rb)
+        {
         std::optional<GraphBuilder> gb;
         try
         {
@@ -812,6 +817,17 @@ namespace hv
                 catch (const std::exception &e) { Line("X.release").s(e.what()); }
             }
             Line("RUN.released").i(r).s(status);
+        }
+        if (c.opts.count("gctx") && rebuilds > 1)
+        {
+            // what the user's own state object holds after the graph was built from it and run
+            try
+            {
+                auto sv = session.view();
+                Line("GCTX.kept").i(rb).i(sv.contains("verif.k0") ? (long long)sv.get("verif.k0").checked_as<Int>() : -1);
+            }
+            catch (const std::exception &e) { Line("GCTX.kept").i(rb).s(std::string("unreadable:") + e.what()); }
+        }
         }
         Line("ENDCASE").s(name).s("done");
     }
